@@ -289,6 +289,70 @@ def _mutate(x):
             x[k] = "MUTATEDV"
 
 
+def bulk_values():
+    out = []
+    for n_ in (15, 16, 17, 18, 31, 32, 33, 64, 100, 257, 1000):
+        out.append(list(range(n_)))
+        out.append([float(i) + 0.5 for i in range(n_)])
+        out.append(["s%d" % i for i in range(n_)])
+        out.append([i % 2 == 0 for i in range(n_)])
+        out.append([i if i % 3 else "x%d" % i for i in range(n_)])
+        out.append([None if i == 5 else i for i in range(n_)])
+        out.append({"k%d" % i: i for i in range(n_)})
+    big = list(range(40))
+    out += [{"a": list(big), "b": [list(big), list(big)]}, [list(big), {"in": list(big)}, "t"], [[list(big)]], {"x": {"y": {"z": list(big)}}}]
+    return out
+
+
+SCRIPT_BUILDERS = [
+    "var a = []; for (var i = 0; i < 40; i++) a.push(i); a",
+    "var a = []; for (var i = 0; i < 40; i++) a.push('s' + i); a",
+    "var a = []; for (var i = 0; i < 17; i++) a.push(i % 2 === 0); a",
+    "var a = [1, 2, 3]; a",
+    "var a = {p: 1, q: [1, 2, 3]}; a",
+    "var a = []; for (var i = 0; i < 40; i++) a.push(i); var o = {list: a, again: a}; o",
+    "var a = []; for (var i = 0; i < 40; i++) a.push(i); [a, a]",
+    "var a = new Array(20).fill ? new Array(20).fill(7) : [7]; a",
+    "var a = 'x,'.repeat(30).split(','); a",
+    "var a = [3, 1, 2].concat([4, 5, 6, 7, 8, 9, 10, 11, 12, 13, 14, 15, 16, 17, 18]); a",
+    "var a = JSON.parse('[' + '1,'.repeat(30) + '1]'); a",
+    "var a = Object.keys({a: 1, b: 2}); a",
+]
+
+
+def script_fresh_task(idxs):
+    """A structure the script built: eval / get hand back equal, distinct copies; mutating a copy
+    changes neither the script's structure nor a later copy."""
+    import copy
+
+    m = engine.load()
+    out = []
+    for i in idxs:
+        src = SCRIPT_BUILDERS[i]
+        ctx = m.Context(time_limit=10)
+        bad = None
+        st, r1 = guarded(lambda: ctx.eval(src))
+        if st != "ok":
+            out.append((i, src, None))  # the engine lacks a built-in the builder uses: nothing to judge
+            continue
+        snap = copy.deepcopy(r1)
+        st2, r2 = guarded(lambda: ctx.get("a"))
+        st3, r3 = guarded(lambda: ctx.eval("a"))
+        before = guarded(lambda: ctx.eval("JSON.stringify(a)"))
+        if st2 == "ok" and st3 == "ok" and isinstance(r2, (list, dict)) and (r2 is r3):
+            bad = ("consecutive results share a container", "distinct objects", "same object")
+        for g in (r1, r2 if st2 == "ok" else None, r3 if st3 == "ok" else None):
+            _mutate(g)
+        after = guarded(lambda: ctx.eval("JSON.stringify(a)"))
+        st4, r4 = guarded(lambda: ctx.eval(src.rsplit(";", 1)[1] if ";" in src else src))
+        if bad is None and before != after:
+            bad = ("mutating a result changed the script's structure", show(before), show(after))
+        if bad is None and st4 == "ok" and not teq(r4, snap):
+            bad = ("a later result differs after an earlier one was mutated", show(snap)[:300], show(r4)[:300])
+        out.append((i, src, bad))
+    return out
+
+
 def literal_task(values):
     m = engine.load()
     out = []
@@ -653,6 +717,30 @@ def main(chk):
                               {"sub": "roundtrip", "value": show(small), "pyrepr": repr(small)[:300]}, exp, act, sub="roundtrip")
             if not bad:
                 chk.sample({"sub": "roundtrip", "value": show(v)}, cls="rt%d" % (len(repr(v)) // 40), per_class=1, total=10)
+    # 1b: bulk containers (long flat lists / wide dicts of plain values, alone and nested) through the same clauses,
+    #     and structures built by the script itself: what eval/get hand back is never the context's own storage
+    res = pool.run(roundtrip_task, pool.chunks(bulk_values(), 8), timeout=900) + [None]
+    for rb in res[:-1]:
+        if isinstance(rb, (pool.HANG, pool.CRASH)):
+            chk.violation("roundtrip|%r" % rb, {"sub": "roundtrip"}, None, repr(rb), sub="roundtrip")
+            continue
+        for r in rb[1]:
+            v = r.get("orig")
+            chk.count()
+            chk.nontrivial("bulk" + core.h16(show(v)))
+            chk.classify("bulk container")
+            for clause, exp, act in judge_rt(chk, v, r)[:1]:
+                chk.violation("roundtrip|%s|bulk" % clause, {"sub": "roundtrip", "value": str(show(v))[:300], "pyrepr": repr(v) if len(repr(v)) <= 300 else None},
+                              exp if len(str(exp)) < 400 else str(exp)[:400], act if len(str(act)) < 400 else str(act)[:400], sub="roundtrip")
+    for rb in pool.run(script_fresh_task, [list(range(len(SCRIPT_BUILDERS)))], timeout=600):
+        if isinstance(rb, (pool.HANG, pool.CRASH)):
+            chk.violation("script-fresh|%r" % rb, {"sub": "script-fresh"}, None, repr(rb), sub="script-fresh")
+            continue
+        for i, src, bad in rb:
+            chk.count()
+            chk.nontrivial("sf|" + src)
+            if bad:
+                chk.violation("script-fresh|%s" % bad[0], {"sub": "script-fresh", "i": i, "src": src}, bad[1], bad[2], sub="script-fresh")
     # 2: literals
     tasks = [(core.shard_seed(chk.seed, "C11", "lits", i) % (2 ** 63), (n // 2) // parts) for i in range(parts)]
     res = pool.run(literal_task, tasks, timeout=900)
@@ -794,7 +882,7 @@ def main(chk):
 
 def replay(rec):
     case = rec["case"]
-    if case.get("sub") == "roundtrip" and "pyrepr" in case:
+    if case.get("sub") == "roundtrip" and isinstance(case.get("pyrepr"), str):
         v = eval(case["pyrepr"], {"nan": math.nan, "inf": INF})  # values written by this check only
         bad = judge_rt(None, v, roundtrip_task([v])[1][0])
         return {"fails": bool(bad), "expected": bad[0][1] if bad else None, "actual": bad[0][2] if bad else "ok"}
@@ -803,6 +891,9 @@ def replay(rec):
         st, got = guarded(lambda: m.Context(time_limit=10).eval(case["src"]))
         exp = rec.get("expected_py")
         return {"fails": st != "ok", "expected": rec.get("expected"), "actual": show(got) if st == "ok" else got}
+    if case.get("sub") == "script-fresh":
+        (i, src, bad), = script_fresh_task([case["i"]])
+        return {"fails": bool(bad), "expected": bad[1] if bad else None, "actual": bad[2] if bad else "fresh"}
     if case.get("sub") == "objret":
         (i, expr, expect, r), = objret_task([case["i"]])
         return {"fails": r[0] != "ok" or not neq(r[1], expect), "expected": show(expect), "actual": show(r[1]) if r[0] == "ok" else r[1]}
